@@ -236,7 +236,7 @@ func miCase(c *corr.Ctx, d *miDesc) (corr.Case, error) {
 	for _, k := range keys {
 		ukeys[string(kv.ParseKey(k))] = true
 	}
-	return corr.Case{Coq: term, Nontrivial: len(ukeys) >= 2 && len(d.Targets) > len(keys), Desc: d}, nil
+	return corr.Case{Coq: term, Nontrivial: len(ukeys) >= 2 && (len(d.Targets) > len(keys) || len(keys) >= 5), Desc: d}, nil
 }
 
 var miVersions = []uint64{0, 1, 2, 3, 5, 8, 1 << 32, math.MaxUint64 - 1, math.MaxUint64}
@@ -330,6 +330,76 @@ func genKeys(r *rand.Rand, n int, fixedLen int, wide bool) [][]byte {
 	return keys
 }
 
+// growthKeySets: see runMemidx. Every set has equal-length keys (radix-safe shape).
+func growthKeySets(r *rand.Rand) [][][]byte {
+	var out [][][]byte
+	extremes := []byte{0x00, 0x01, 0xfe, 0xff}
+	isExtreme := func(b byte) bool { return b <= 0x01 || b >= 0xfe }
+	others := func(n int) []byte { // n distinct non-extreme bytes in random order
+		p := r.Perm(252)
+		bs := make([]byte, n)
+		for i := range bs {
+			bs[i] = byte(p[i] + 2)
+		}
+		return bs
+	}
+	for _, deep := range []bool{false, true} {
+		mk := func(bs []byte) [][]byte {
+			var keys [][]byte
+			if deep {
+				// the fan-out node sits under the root child 'q'; 'r' keeps the root an inner node
+				keys = append(keys, kv.KeyWithTs([]byte{'r', 0x7f}, 3))
+			}
+			for _, b := range bs {
+				uk := []byte{b}
+				if deep {
+					uk = []byte{'q', b}
+				}
+				keys = append(keys, kv.KeyWithTs(uk, 3))
+			}
+			return keys
+		}
+		for _, x := range extremes {
+			// the extreme child is there before every growth
+			out = append(out, mk(append([]byte{x}, others(51)...)))
+			for _, t := range []int{5, 17, 49} {
+				o := others(t + 2)
+				// x is the insert that makes the node grow (t-th child)
+				grow := append(append(append([]byte(nil), o[:t-1]...), x), o[t-1:t+1]...)
+				out = append(out, mk(grow))
+				// x is inserted right after the growth
+				after := append(append(append([]byte(nil), o[:t]...), x), o[t:]...)
+				out = append(out, mk(after))
+			}
+		}
+		// all four extremes first, then 50 others
+		out = append(out, mk(append(append([]byte(nil), extremes...), others(50)...)))
+		// the others first, the four extremes last
+		out = append(out, mk(append(others(50), extremes...)))
+	}
+	_ = isExtreme
+	// one user key, 60 versions differing in the first version byte (inverted: 0xFF, 0xFE, ... and 0x00, 0x01)
+	for _, firstLast := range []bool{true, false} {
+		var vers []uint64
+		for i := 0; i < 56; i++ {
+			vers = append(vers, uint64(i+2)<<56)
+		}
+		r.Shuffle(len(vers), func(i, j int) { vers[i], vers[j] = vers[j], vers[i] })
+		ext := []uint64{0, 1 << 56, 0xfe << 56, 0xff << 56} // inverted first byte 0xFF, 0xFE, 0x01, 0x00
+		if firstLast {
+			vers = append(ext, vers...)
+		} else {
+			vers = append(vers, ext...)
+		}
+		var keys [][]byte
+		for _, v := range vers {
+			keys = append(keys, kv.KeyWithTs([]byte("k"), v))
+		}
+		out = append(out, keys)
+	}
+	return out
+}
+
 func permutations(n int) [][]int {
 	if n == 0 {
 		return [][]int{{}}
@@ -347,7 +417,7 @@ func permutations(n int) [][]int {
 func runMemidx(c *corr.Ctx) error {
 	c.Meta("run_module", "RunMemIndex")
 	c.Meta("exhaustive", false)
-	c.Meta("rule", "the same insertion sequence into utils.NewSkiplist and utils.NewART (value = insertion index): random key multisets over user-key alphabet {a,b,00,ff} (lengths 0..4, optional shared prefix, with/without CF marker, 9 versions incl. 0 and 2^64-1, a few overwrites), fixed-length (radix-safe) and mixed-length shapes, wide fan-out sets (>48 distinct next bytes: every ART node width), all insertion orders of 2..4-key sets (5 in thorough); per engine: full forward and reverse iteration, Search and Seek+3*Next in both directions on every key and its neighbours (version +-1, max, 0, key++00, key++ff, key minus last byte). Concurrent inserts (8 goroutines, distinct keys) are a stress test only, compared with the sequential model. non-trivial = >= 2 user keys and more targets than keys")
+	c.Meta("rule", "the same insertion sequence into utils.NewSkiplist and utils.NewART (value = insertion index): random key multisets over user-key alphabet {a,b,00,ff} (lengths 0..4, optional shared prefix, with/without CF marker, 9 versions incl. 0 and 2^64-1, a few overwrites), fixed-length (radix-safe) and mixed-length shapes, wide fan-out sets (>48 distinct next bytes: every ART node width), node-growth sets (children crossing 5/17/49 with a child keyed 00/01/fe/ff inserted before, at and after each growth, at the root and one level down; 60 versions of one key), all insertion orders of 2..4-key sets (5 in thorough); per engine: full forward and reverse iteration, Search and Seek+3*Next in both directions on every key and its neighbours (version +-1, max, 0, key++00, key++ff, key minus last byte). Concurrent inserts (8 goroutines, distinct keys) are a stress test only, compared with the sequential model. non-trivial = >= 2 user keys and more targets than keys")
 	if c.Replay != "" {
 		cases, err := c.ReplayCases()
 		if err != nil {
@@ -431,6 +501,16 @@ func runMemidx(c *corr.Ctx) error {
 			return err
 		}
 		c.Count("wide_fanout_cases")
+	}
+	// node growth with extreme child bytes: fan-out sets that cross the 4->16, 16->48 and
+	// 48->256 thresholds (5th, 17th, 49th child) with a child keyed 0x00 / 0x01 / 0xFE / 0xFF
+	// inserted before every growth, as the growing insert, or right after the growth; at the
+	// root and at a deeper node; plus one user key with 60 versions (fan-out in the version bytes)
+	for _, keys := range growthKeySets(c.Rng) {
+		if err := emit(keys, 14, false, true); err != nil {
+			return err
+		}
+		c.Count("node_growth_cases")
 	}
 	// concurrent inserts: stress test only
 	for i := 0; i < c.Scale(2, 20); i++ {
